@@ -44,6 +44,10 @@ def corpus():
         {'target': t, 'ops': [['__getitem__', L('a')], ['__getattr__', L('b')], ['__getitem__', L(0)]]},
         {'target': t, 'ops': [['__getitem__', L('i')], ['__add__', L('x')], ['__neg__', None]]},
         {'target': 5, 'ops': [['__invert__', None], ['__pow__', L(2)], ['__xor__', L(3)], ['__or__', L(8)], ['__and__', L(12)], ['__sub__', L(1)]]},
+        # what is an argument literal: exactly list / dict / tuple / set objects are rebuilt; an OrderedDict instance is passed as it is
+        {'target': {'fn': ['id']}, 'ops': [['call', {'call': [L({'k': 'dict', 'od': True, 'id': 4001, 'items': [['q', 1]]})]}]]},
+        {'target': {'fn': ['id']}, 'ops': [['call', {'call': [L({'k': 'dict', 'od': False, 'id': 0, 'items': [['q', {'k': 'dict', 'od': True, 'id': 4002, 'items': []}]]})]}]]},
+        {'target': {'fn': ['id']}, 'ops': [['call', {'call': [L({'k': 'list', 'id': 0, 'items': [{'k': 'dict', 'od': True, 'id': 4003, 'items': [['z', 2]]}, 5]})]}]]},
     ]
 
 
@@ -186,7 +190,10 @@ class Gen:
                 a = None
                 if r.random() < 0.5:
                     a = self.nested(tobj, (int, str, list, tuple))
-                args.append(a or {'lit': r.choice([1, 2, 4, 'ab', {'k': 'list', 'id': 0, 'items': [1, 2]}])})
+                args.append(a or {'lit': r.choice([1, 2, 4, 'ab', {'k': 'list', 'id': 0, 'items': [1, 2]},
+                                                   # an instance of a dict SUBCLASS is not an argument literal: it is passed as it is
+                                                   {'k': 'dict', 'od': True, 'id': 4000 + r.randint(1, 9), 'items': [['q', 1]]},
+                                                   {'k': 'dict', 'od': True, 'id': 4000 + r.randint(1, 9), 'items': []}])})
             return ['call', {'call': args}]
         if hasattr(cur, '__dict__') and cur.__dict__:
             return ['__getattr__', {'lit': r.choice(list(cur.__dict__))}]
